@@ -122,6 +122,11 @@ contract(FN + "::Nucleus.transcribe_with_tools", "C18",
          ensures={"at-most-one-plain-completion": "calls_to('provider.complete') <= 1"})
 
 
+# the stuck-worker detector the swarm contract assumes total: its own obligation (and a ratio is a ratio)
+contract(FS + "::RegenerativeSwarm._calculate_entropy", "C18", params={"outputs": "list:str"}, raises=[], modifies=[],
+         ensures={"in-unit-interval": "result >= 0 and result <= 1"})
+
+
 def native_replay(rep):
     """budget obligations live inside cut loops: the witness is searched for with the adversary families on the real loops"""
     import os, sys
